@@ -4161,9 +4161,41 @@ Proof.
   - apply IH. intros Hin. apply Hk. right. exact Hin.
 Qed.
 
+(* bookkeeping columns that none of the three invariants reads *)
+Lemma bookkeeping_sound g F :
+  (forall s, s_key (F s) = s_key s /\ s_state (F s) = s_state s /\ s_need (F s) = s_need s /\
+             s_holding (F s) = s_holding s /\ s_detached (F s) = s_detached s /\ s_creator (F s) = s_creator s /\
+             s_safe (F s) = s_safe s /\ s_safe_nh (F s) = s_safe_nh s /\ s_ineed (F s) = s_ineed s /\
+             s_tail (F s) = s_tail s /\ s_duration (F s) = s_duration s /\ s_ready (F s) = s_ready s /\
+             s_chk_safe (F s) = s_chk_safe s /\ s_chk_after (F s) = s_chk_after s /\ s_chk_ready (F s) = s_chk_ready s) ->
+  FlagInv g -> FlagInv (mapg F g).
+Proof.
+  intros P [HFs [HFn HFr]]. split; [|split].
+  - apply FlagInv_safe_mono; [|exact HFs]. constructor; intros s; try apply (P s).
+    + intros H. destruct (P s) as [_ [_ [_ [_ [_ [_ [_ [_ [_ [_ [_ [_ [-> _]]]]]]]]]]]]]. exact H.
+    + intros _ _. destruct (P s) as [_ [Hst [_ [Hh [_ [Hc _]]]]]]. unfold ok_h, ok_nh. rewrite Hst, Hh. auto.
+  - apply FlagInv_need_mono; [|exact HFn]. constructor; intros s; try apply (P s).
+    intros H. destruct (P s) as [_ [_ [_ [_ [_ [_ [_ [_ [_ [_ [_ [_ [_ [-> _]]]]]]]]]]]]]]. exact H.
+  - apply FlagInv_ready_mono; [| | |exact HFr]; intros s; try apply (P s).
+    intros H. destruct (P s) as [_ [_ [_ [_ [_ [_ [_ [_ [_ [_ [_ [_ [_ [_ ->]]]]]]]]]]]]]]. exact H.
+Qed.
+
+Lemma set_step_hash_sound g k b : FlagInv g -> FlagInv (set_step_hash g k b).
+Proof.
+  apply bookkeeping_sound. intros s. cbv beta. destruct (s_key s =? k); repeat split; reflexivity.
+Qed.
+Lemma inc_defer_sound g k : FlagInv g -> FlagInv (inc_defer g k).
+Proof.
+  apply bookkeeping_sound. intros s. cbv beta. destruct (s_key s =? k); repeat split; reflexivity.
+Qed.
+Lemma same_keys_set_step_hash g k b : same_keys g (set_step_hash g k b).
+Proof. eapply same_keys_map; [reflexivity|]. intros s. cbv beta. destruct (s_key s =? k); reflexivity. Qed.
+Lemma same_keys_inc_defer g k : same_keys g (inc_defer g k).
+Proof. eapply same_keys_map; [reflexivity|]. intros s. cbv beta. destruct (s_key s =? k); reflexivity. Qed.
+
 Definition prim_ok (g : graph) (p : prim) : Prop :=
   match p with
-  | PSetState _ _ _ | PHold _ | PRelease _ | PInsDep _ | PDelDep _ => True
+  | PSetState _ _ _ | PHold _ | PRelease _ | PInsDep _ | PDelDep _ | PSetHash _ _ | PIncDefer _ => True
   | PSetFileState k st _ =>
       forall f, In f (g_files g) -> f_key f = k -> (f_state f =? FS_VOLATILE) = (st =? FS_VOLATILE)
   | PDetach k =>
@@ -4216,6 +4248,8 @@ Proof.
   - destruct Hok as [H1 H2].
     split; [eapply same_keys_WF; [eapply same_keys_place_rel; apply reattach_step_place_rel | exact Hwf]
            | apply reattach_step_sound_repo; assumption].
+  - split; [eapply same_keys_WF; [apply same_keys_set_step_hash | exact Hwf] | apply set_step_hash_sound; exact HF].
+  - split; [eapply same_keys_WF; [apply same_keys_inc_defer | exact Hwf] | apply inc_defer_sound; exact HF].
   - destruct Hok as [H1 [H2 [H3 [[rank HR] H4]]]]. split.
     + unfold WF, create_step. cbn [g_steps with_steps]. rewrite map_app. cbn [map s_key].
       apply NoDup_app_fresh; assumption.
